@@ -8,7 +8,7 @@ From Rumqtt Require Import Log.Proofs Router.ExactLog.
 From Rumqtt Require Import Router.WindowFrame Router.Window Router.WindowStep Router.DataLogInv Router.DataLogStep
                            Router.ExactInv Router.ExactStep1 Router.ExactStep2 Router.ExactStep3 Router.ExactLogs
                            Router.ExactSweep Router.ExactThm.
-From Rumqtt Require Import Router.TraceRun Router.TraceRunHeld Router.TraceRunInv Router.TraceRunPkt Router.TraceRunSweep.
+From Rumqtt Require Import Router.TraceRun Router.TraceRunHeld Router.TraceRunInv Router.TraceRunPkt Router.TraceRunSweep Router.TraceRunBound.
 From Rumqtt Require Import Router.Model Router.RunDefs.
 From Coq Require Import List ZifyBool ZifyN ZifyNat.
 Import ListNotations.
@@ -94,11 +94,11 @@ Lemma handle_new_connection_di cfg st conn link st' tr :
   RInvC cfg st -> r_notif st = [] -> DevEI st -> CInv st -> LinkInv st -> link < lenN (r_links st) ->
   (forall id k f i a, In (id, (k, f, i), a) tr -> k < link) ->
   (forall id o, slab_get (r_obufs st) id = Some o -> o_link o < link) ->
-  DI st [] tr ->
+  DI st [] tr -> BI st ->
   handle_new_connection st conn link = Ok st' ->
   DI st' [] (tr ++ take_ghost st (c_client conn) ++ conn_ghost st' (c_client conn) link).
 Proof.
-  intros HR Hn HD HI HL Hlk Hfresh0 Hlinks HDI0 H.
+  intros HR Hn HD HI HL Hlk Hfresh0 Hlinks HDI0 HBI0 H.
   destruct (handle_new_connection_cinv _ _ _ _ HI H) as [HI' _].
   unfold handle_new_connection in H. unfold take_ghost.
   destruct (validate_clientid (c_client conn)); cbn [negb] in H.
@@ -107,7 +107,7 @@ Proof.
   set (tg := match al_get str_eqb (c_client conn) (r_cmap st) with
              | Some cid => match handle_disconnection st cid None with Ok s => disc_ghost st cid s | _ => [] end
              | None => [] end).
-  assert (X1 : RInvC cfg st1 /\ r_notif st1 = [] /\ DevEI st1 /\ CInv st1 /\ DI st1 [] (tr ++ tg) /\
+  assert (X1 : RInvC cfg st1 /\ r_notif st1 = [] /\ DevEI st1 /\ CInv st1 /\ DI st1 [] (tr ++ tg) /\ BI st1 /\
                lenN (r_links st1) = lenN (r_links st) /\
                (forall id o, slab_get (r_obufs st1) id = Some o -> o_link o < link) /\
                (forall id k f i a, In (id, (k, f, i), a) (tr ++ tg) -> k < link)).
@@ -119,12 +119,12 @@ Proof.
     destruct (handle_disconnection_cinv _ _ _ _ HI H1) as [HI1 L1].
     destruct (handle_disconnection_obs _ _ _ _ H1) as (Ob & _ & EL & _).
     split; [exact A|]. split; [exact B|]. split; [exact HD1|]. split; [exact HI1|].
-    split; [eapply handle_disconnection_di; eassumption|]. split; [exact EL|]. split.
+    split; [eapply handle_disconnection_di; eassumption|]. split; [exact (disc_bi _ _ _ _ _ HI HDI0 HBI0 H1)|]. split; [exact EL|]. split.
     - intros id o Ho. destruct (obs_at_sub _ _ _ Ob _ _ Ho) as (o0 & Ho0 & Hs). apply ostep_link in Hs as [Hs _].
       rewrite Hs. eapply Hlinks; exact Ho0.
     - intros id k f i a Hin. apply in_app_or in Hin as [Hin | Hin]; [eapply Hfresh0; exact Hin|].
       destruct (disc_ghost_link _ _ _ _ _ _ _ _ Hin) as (o & Ho & ->). eapply Hlinks; exact Ho. }
-  destruct X1 as (HR1 & Hn1 & HD1 & HI1 & HDI1 & EL1 & Hlinks1 & Hfresh). clear H1 HI HDI0 HR Hn Hlinks HD Hfresh0 HL.
+  destruct X1 as (HR1 & Hn1 & HD1 & HI1 & HDI1 & HBI1 & EL1 & Hlinks1 & Hfresh). clear H1 HI HDI0 HBI0 HR Hn Hlinks HD Hfresh0 HL.
   rewrite app_assoc. remember (tr ++ tg) as trx eqn:Etrx.
   enough (X : DI st' [] (trx ++ conn_ghost st' (c_client conn) link)) by (rewrite Etrx in X; exact X). clear Etrx.
   destruct (cf_max_connections (r_cfg st1) <=? slab_len (r_conns st1)).
@@ -137,6 +137,12 @@ Proof.
       apply al_get_In in Es. pose proof (de_grave _ _ HD1) as G. rewrite Forall_forall in G. specialize (G _ Es f).
       unfold okE in G. cbn [snd] in G. destruct (set_mem str_eqb f (ss_subs ss)); lia.
     - inv_ok. cbn. lia. }
+  (* ... and cursors that are not ahead of their logs *)
+  assert (HGB : forall rq, In rq (tr_reqs trk) -> dr_group rq = None -> CurB (r_datalog st1) (dr_idx rq) (dr_cursor rq)).
+  { intros rq Hrq Hg. destruct (negb (c_clean conn)).
+    - destruct (al_get str_eqb (c_client conn) (r_graveyard st1)) as [[ss|]|] eqn:Es; inv_ok; cbn [tr_reqs] in Hrq; try destruct Hrq.
+      apply al_get_In in Es. exact (proj1 HBI1 _ _ Es _ Hrq Hg).
+    - inv_ok. destruct Hrq. }
   destruct (slab_insert (r_conns st1) (set_c_will conn1 None)) as [conns id] eqn:Ic.
   destruct (slab_insert (r_ibufs st1) _) as [ibufs id_i] eqn:Ii.
   destruct (slab_insert (r_obufs st1) _) as [obufs id_o] eqn:Io.
@@ -223,7 +229,7 @@ Proof.
       + cbn [st2 r_obufs] in Ho. rewrite Ho2 in Ho. inversion Ho; subst o. unfold key_of in Hl. cbn [o_link] in Hl.
         rewrite (ktrace_fresh trx link _ _ Hfresh) in Hl. cbn [app] in Hl.
         destruct Hh as [Hh | []]. apply Hnew in Hh. rewrite (Hin_ev _ Hh Hg) in Hl. inversion Hl; subst a.
-        split; [reflexivity|]. discriminate.
+        split; [reflexivity|]. exact (HGB _ Hh Hg).
       + destruct (Hold _ _ Ho Hne) as [Ho1 Hl1]. unfold evs in Hl. rewrite ktrace_res_other, app_nil_r in Hl by exact Hl1.
         eapply D4; [exact Ho1| |exact Hg|exact Hl]. destruct Hh as [Hh | []]. left. now apply Hheld.
     - intros id0 k f i a c o Hin Ho Hk. apply in_app_or in Hin as [Hin | Hin].
@@ -252,10 +258,10 @@ Lemma di_oracle st orc e tr : DI st e tr -> DI (set_r_oracle st orc) e tr.
 Proof. apply di_frame_same; try reflexivity. apply hsub_view. reflexivity. Qed.
 
 Lemma step_di st o st' out evs tr :
-  RInvE st -> CInv st -> Bounded st -> LinkInv st -> op_wf o -> DI st [] tr ->
+  RInvE st -> CInv st -> Bounded st -> LinkInv st -> op_wf o -> DI st [] tr -> BI st ->
   step_d st o = Ok (st', out, evs) -> DI st' [] (tr ++ evs).
 Proof.
-  intros [[HI Hn] HD] HC HB HL Hwf HDI H.
+  intros [[HI Hn] HD] HC HB HL Hwf HDI HBI H.
   destruct o as [c | k pk | id | | k | id | id | id f | c |]; unfold step_d in H.
   - (* Connect *)
     apply bind_ok in H as ([st2 out2] & H2 & H). inv_ok. cbn [step] in H2. cbv zeta in H2.
@@ -267,7 +273,7 @@ Proof.
     { destruct HDI as [D1 D2 D3 D4 D5 D6 D7]. constructor; try assumption.
       intros id0 k f i a Hin. specialize (D1 _ _ _ _ _ Hin). lia. }
     match type of H3 with handle_new_connection _ ?cn _ = _ =>
-      apply (handle_new_connection_di (r_cfg st) st1 cn (lenN (r_links st)) st' tr); [| | |exact HC1| | | | |exact HDI1|exact H3] end.
+      apply (handle_new_connection_di (r_cfg st) st1 cn (lenN (r_links st)) st' tr); [| | |exact HC1| | | | |exact HDI1|exact HBI|exact H3] end.
     + apply RInv_links_app; [exact HI|constructor].
     + exact Hn.
     + eapply dfr_DevE; [exact HD|dfr_triv].
@@ -315,18 +321,17 @@ Proof.
 Qed.
 
 Lemma step_with_di st orc o st' out evs tr :
-  RInvE st -> CInv st -> Bounded st -> LinkInv st -> op_wf o -> DI st [] tr ->
-  step_with_d st orc o = Ok (st', out, evs) -> DI st' [] (tr ++ evs).
+  RInvE st -> CInv st -> Bounded st -> LinkInv st -> op_wf o -> DI st [] tr -> BI st ->
+  step_with_d st orc o = Ok (st', out, evs) -> DI st' [] (tr ++ evs) /\ BI st'.
 Proof.
-  intros [[HI Hn] HD] HC HB HL Hwf HDI H. unfold step_with_d in H.
+  intros [[HI Hn] HD] HC HB HL Hwf HDI HBI H. unfold step_with_d in H.
   apply bind_ok in H as ([[st1 out1] evs1] & H1 & H). destruct (r_oracle st1); [|discriminate]. inv_ok.
-  eapply (step_di (set_r_oracle st orc)); [| | | | | |exact H1].
-  - split; [split; [apply RInv_set_oracle; exact HI|exact Hn]|]. eapply dfr_DevE; [exact HD|dfr_triv].
-  - eapply cinv_view; [|exact HC]. reflexivity.
-  - exact HB.
-  - exact HL.
-  - exact Hwf.
-  - apply di_oracle. exact HDI.
+  assert (HE0 : RInvE (set_r_oracle st orc)).
+  { split; [split; [apply RInv_set_oracle; exact HI|exact Hn]|]. eapply dfr_DevE; [exact HD|dfr_triv]. }
+  assert (HC0 : CInv (set_r_oracle st orc)) by (eapply cinv_view; [|exact HC]; reflexivity).
+  split.
+  - eapply (step_di (set_r_oracle st orc)); [exact HE0|exact HC0|exact HB|exact HL|exact Hwf|apply di_oracle; exact HDI|exact HBI|exact H1].
+  - eapply (bi_step_d (set_r_oracle st orc)); [exact HE0|exact HC0|exact HB|exact HL|exact Hwf|apply di_oracle; exact HDI|exact HBI|exact H1].
 Qed.
 
 (* ------------------------------------------------------------------ runs *)
@@ -347,19 +352,22 @@ Record RunInv (st : rstate) (tr : list dev) : Prop := {
   rn_rinv : RInvE st;
   rn_cinv : CInv st;
   rn_link : LinkInv st;
-  rn_di : DI st [] tr
+  rn_di : DI st [] tr;
+  rn_bi : BI st
 }.
 
 Lemma runinv_step st tr orc o st1 out evs :
   RunInv st tr -> Bounded st -> op_wf o -> step_with_d st orc o = Ok (st1, out, evs) -> RunInv st1 (tr ++ evs).
 Proof.
-  intros [HE HC HL HDI] HB0 Hw1 H1. pose proof (step_with_d_step _ _ _ _ _ _ H1) as H1'.
+  intros [HE HC HL HDI HBI] HB0 Hw1 H1. pose proof (step_with_d_step _ _ _ _ _ _ H1) as H1'.
   destruct (step_with_cinv _ _ _ _ _ HC HB0 H1') as [HC1 _].
+  destruct (step_with_di _ _ _ _ _ _ _ HE HC HB0 HL Hw1 HDI HBI H1) as [HDI1 HBI1].
   constructor.
   - eapply rinve_step; eassumption.
   - exact HC1.
   - apply (WindowStep.step_with_inv _ _ _ _ _ H1'). exact HL.
-  - eapply step_with_di; eassumption.
+  - exact HDI1.
+  - exact HBI1.
 Qed.
 
 (** the state before a step of a run that ends bounded is bounded *)
@@ -392,4 +400,5 @@ Proof.
   - eapply init_cinv; eassumption.
   - apply (WindowStep.init_inv _ _ Hi).
   - eapply di_init; eassumption.
+  - eapply bi_init; eassumption.
 Qed.
